@@ -72,6 +72,17 @@ CLAIMED = {
             'documentation leaves a reading open (empty interior segments inside + / * captures, the tolerated trailing slash '
             'inside the capture) may(p) accepts both readings.',
             'DESIGN.md §6 C16'),
+    'C17': ('The real path_join_safe is executed on text ropes: the file name is k+1 segments joined by k separators, every '
+            'separator symbolically "/" or backslash, every segment empty or an arbitrary non-empty z3 string without separators '
+            '(so "..", ".", drive-like prefixes, unicode and any length are all instances); os.path.join/abspath/normpath are '
+            'CPython\'s own pure-Python posixpath bodies read from the stdlib at run time and executed by the same engine; root '
+            '(absolute, relative, "/", with/without trailing separator) and cwd are symbolic too. On every path the result is '
+            'proven to be ValueError or a normalised absolute path that equals the resolved root or starts with root + "/".',
+            'Trusted: sx engine, text-rope operations (structural, falling back to z3 string theory), posixpath.py as the '
+            'specification of os.path on POSIX (the C accelerator _path_normpath is assumed equivalent to the pure-Python fallback '
+            'it replaces). Bounds: name <= 4 (thorough 6) separators; root <= 1 (thorough 2) separators; cwd depth <= 1 (2). '
+            'String-level property: symlinks and Windows ntpath are outside.',
+            'DESIGN.md §6 C17'),
 }
 
 NOT_YET = 'check not built yet in this round (planned: see DESIGN.md §6); not claimed'
